@@ -238,6 +238,9 @@ func c10Judge(c c10Case, res opResult) string {
 				s = slope[bcastIndex(unravel(i, c.x.Shape()), c.slope.Shape())]
 			}
 			v, kf := c10JudgeFloat(c.op, c.dt, x[i], g[i], s)
+			if v == "" && c.op == "Abs" && g[i] == 0 && math.Signbit(g[i]) {
+				v = fmt.Sprintf("Abs(%v) = -0: the absolute value clears the sign bit", x[i])
+			}
 			if v == "" {
 				continue
 			}
